@@ -11,7 +11,7 @@ import os, re, sys
 
 REPO = os.environ.get("FEOX_REPO", "/repo")
 V = os.path.dirname(os.path.dirname(os.path.abspath(__file__)))
-FILES = ["src/storage/write_buffer.rs", "src/core/store/persistence.rs"]
+FILES = ["src/storage/write_buffer.rs", "src/core/store/persistence.rs", "src/core/store/range.rs", "src/core/store/operations.rs", "src/core/store/atomic.rs", "src/core/store/ttl.rs", "src/core/store/json_patch.rs"]
 
 CLASSES = [
     (r"free_space", "freeSpace"),
@@ -24,7 +24,44 @@ CLASSES = [
     (r"ttl_sweeper", "sweeper"),
 ]
 LOCKS = ["freeSpace", "disk", "retireFlush", "retirePending", "shard", "metaLock", "handles", "sweeper"]
-ACQ = re.compile(r"([A-Za-z_][\w\.]*?)\s*\.\s*(write|read|lock)\(\)")
+ACQ_CALL = re.compile(r"\.\s*(write|read|lock)\(\)")
+
+
+class Acq:
+    """one lock acquisition in a statement: `group(1)` = the receiver expression"""
+    def __init__(self, recv, start):
+        self.recv, self._start = recv, start
+
+    def group(self, i):
+        return self.recv
+
+    def start(self):
+        return self._start
+
+
+class _Acq:
+    @staticmethod
+    def finditer(s):
+        for m in ACQ_CALL.finditer(s):
+            # the receiver: back from the call over identifiers, `.`, `::`, `?`, `&`, and balanced (...) groups
+            i, depth = m.start(), 0
+            while i > 0:
+                c = s[i - 1]
+                if c in ")]":
+                    depth += 1
+                elif c in "([":
+                    if depth == 0:
+                        break
+                    depth -= 1
+                elif depth == 0 and not (c.isalnum() or c in "_.:?&"):
+                    break
+                i -= 1
+            recv = s[i:m.start()].strip()
+            if recv:
+                yield Acq(recv, i)
+
+
+ACQ = _Acq
 
 
 def classify(recv, where):
@@ -89,7 +126,7 @@ def main():
             for m in ACQ.finditer(s):
                 direct[n].add(classify(m.group(1), n))
             for g in fns:
-                if g != n and g not in ('drop', 'new', 'default', 'from') and re.search(r"(?<![\w\.])%s\(" % g, s):
+                if g != n and g not in ('drop', 'new', 'default', 'from') and re.search(r"(?:(?<![\w\.])|\bself\.)%s\(" % g, s):
                     calls[n].add(g)
     # transitive lock sets
     total = {n: set(direct[n]) for n in fns}
@@ -110,7 +147,7 @@ def main():
                 for (_, h, _) in held:
                     edges.add((h, lock, n))
             for g in calls[n]:
-                if s is not st[0] and re.search(r"(?<![\w\.])%s\(" % g, s):
+                if s is not st[0] and re.search(r"(?:(?<![\w\.])|\bself\.)%s\(" % g, s):
                     for (_, h, _) in held:
                         for lock in total[g]:
                             edges.add((h, lock, "%s -> %s" % (n, g)))
